@@ -14,6 +14,7 @@
 package simrt
 
 import (
+	"context"
 	"fmt"
 	"reflect"
 	"runtime"
@@ -797,6 +798,7 @@ type Ctx struct {
 	// FarDeadline: the context reports a deadline (one hour of simulated time ahead, never reached): what a
 	// context.WithTimeout context that is cancelled early looks like to the code under test
 	FarDeadline time.Time
+	ValueParent context.Context
 }
 
 // NewCtx creates a context owned by the simulation (inside the bubble).
@@ -867,7 +869,14 @@ func (c *Ctx) Err() error {
 	return nil
 }
 
-func (c *Ctx) Value(key any) any { return nil }
+// Value delegates to ValueParent when set: a host's own context type that carries the values (and, through them,
+// the standard library's cancel context) of another, still live, context - a "merged" context.
+func (c *Ctx) Value(key any) any {
+	if c.ValueParent != nil {
+		return c.ValueParent.Value(key)
+	}
+	return nil
+}
 
 var errCanceled = fmt.Errorf("context canceled")
 
